@@ -274,7 +274,7 @@ func genCtrlCase(rt *rapid.T, o ctrlGenOpts) ctrlCase {
 
 type crashSentinel struct{}
 
-type judgeSet struct{ C01, C02, C03, C06, C07, C11, Stab bool }
+type judgeSet struct{ C01, C02, C03, C06, C07, C11, C18, Stab bool }
 
 type quiescent struct {
 	addrs map[string][]netip.Addr
@@ -315,6 +315,7 @@ type sim struct {
 	sinceRestart  map[string]bool         // services written / made inadmissible since the restart
 	recR          map[string][]netip.Addr // during a restart: the statuses at the crash
 	ipModeDefault bool
+	poolCalls     int               // PoolChanged invocations (a reconcile of an unchanged configuration must not reach the handler)
 	cfgGen        int               // number of configurations the controller accepted so far
 	howGotGen     map[string]int    // cfgGen at the time howGot was recorded
 	howGot        map[string]string // how each service came to its current addresses (Allocate | AllocateFromPool | Assign | AddFamily)
@@ -501,6 +502,7 @@ func (s *sim) boot() {
 			return res
 		},
 		PoolChanged: func(l log.Logger, pools *config.Pools) controllers.SyncState {
+			s.poolCalls++
 			res := s.c.SetPools(l, pools)
 			s.ctrlCl = s.cl
 			s.hasCfg = true
@@ -1290,7 +1292,13 @@ func (s *sim) restartJudge() {
 		if len(as) == 0 {
 			continue // a theft by a service without record shows up below as the victim's loss (thief-had-recorded-address=false)
 		}
-		if since[k] || !s.admissible(k, as, recordedHolders) {
+		if since[k] {
+			continue
+		}
+		if !s.admissible(k, as, recordedHolders) {
+			// e.g. a co-tenant changed its ports while the controller was down: the recorded address is contested, the
+			// new instance serves whoever it processes first - this service is no innocent bystander of this period
+			s.exempt[k] = true
 			continue
 		}
 		if _, alive := s.specs[k]; !alive {
@@ -1365,6 +1373,27 @@ func runCtrl(c ctrlCase, tr *vw.Trace, j judgeSet) *vw.Violation {
 		if s.viol == nil && s.j.C03 && s.hasCfg {
 			if !s.writeDiscipline() {
 				return false
+			}
+		}
+		if s.viol == nil && s.j.C18 && s.hasCfg {
+			// an event that leaves the resources as they are (here: one more reconcile of the same store) must not look
+			// like a configuration change to the controller that lived through the history
+			before, writes := s.poolCalls, 0
+			for _, n := range s.writes {
+				writes += n
+			}
+			s.enqueue("pool")
+			if !s.settle() {
+				return false
+			}
+			after := 0
+			for _, n := range s.writes {
+				after += n
+			}
+			if s.poolCalls != before {
+				s.setViol(vw.Violationf("unchanged-configuration-reloaded", "%s: reconciling the unchanged pools again delivered the configuration to the controller %d more time(s) (and caused %d status write(s))", label, s.poolCalls-before, after-writes))
+			} else {
+				s.tr.Class("unchanged-configuration-not-reloaded")
 			}
 		}
 		return true
@@ -1507,6 +1536,28 @@ func TestVerifC11Ctrl(t *testing.T) {
 			// quiescence while an admissible assignment exists
 			v := runCtrl(c, tr, judgeSet{C11: true, C07: true})
 			if tr.Has("release-by-delete") || tr.Has("pool-edit") {
+				tr.NonTrivial()
+			}
+			return v
+		})
+}
+
+// C18 on the live controller: the configuration the reconciler remembers is shared with the controller and the
+// allocator; nothing they do with it may make the next, unchanged, computation look different.
+func TestVerifC18Ctrl(t *testing.T) {
+	vw.Run(t, vw.Options{Property: "C18", Engine: "controller", Rule: ctrlRule + "; at every quiescence the pools are reconciled once more from the unchanged store: the real PoolReconciler must not deliver the configuration to the real controller again; non-trivial = >=1 address assigned before such a reconcile", Assumptions: ctrlAssumptions},
+		func(rt *rapid.T) ctrlCase {
+			c := genCtrlCase(rt, ctrlGenOpts{Sched: true, MaxOps: 16})
+			if rapid.Bool().Draw(rt, "manyPools") {
+				// many pools, most of them pinned: the per-namespace and per-selector indexes of the configuration get several
+				// entries (slices with spare capacity that a careless consumer could write into)
+				c.Cluster = vw.GenCluster(rt, vw.ClusterOpts{MinPools: 4, MaxPools: 8, MaxAtomsPerPool: 1, Namespaces: 2, Alloc: true})
+			}
+			return c
+		},
+		func(c ctrlCase, tr *vw.Trace) *vw.Violation {
+			v := runCtrl(c, tr, judgeSet{C18: true})
+			if tr.Has("unchanged-configuration-not-reloaded") || v != nil {
 				tr.NonTrivial()
 			}
 			return v
